@@ -4,6 +4,7 @@ go 1.21.7
 
 require (
 	github.com/dreadl0ck/tlsx v1.0.1-google-gopacket
+	github.com/fsnotify/fsnotify v1.7.0
 	github.com/google/gopacket v1.1.18
 	github.com/prometheus/client_golang v1.18.0
 	github.com/refraction-networking/utls v1.6.0
@@ -17,7 +18,6 @@ require (
 	github.com/beorn7/perks v1.0.1 // indirect
 	github.com/cespare/xxhash/v2 v2.2.0 // indirect
 	github.com/cloudflare/circl v1.3.7 // indirect
-	github.com/fsnotify/fsnotify v1.7.0 // indirect
 	github.com/google/go-cmp v0.6.0 // indirect
 	github.com/google/pprof v0.0.0-20231212022811-ec68065c825e // indirect
 	github.com/klauspost/compress v1.17.4 // indirect
